@@ -275,6 +275,7 @@ type workerStats struct {
 	RunHash       string           `json:"run_hash"`        // hash over all run hashes: determinism self-test
 	Samples       []*Plan          `json:"samples,omitempty"`
 	Violations    int              `json:"violations"`
+	KnownHits     int64            `json:"known_hits"`
 	DetViolations int              `json:"det_violations"` // runs with a violation from a deterministic oracle (not only the race monitor)
 	RaceErrors    int              `json:"race_errors"`
 	DistinctFile  string           `json:"distinct_file,omitempty"`
@@ -303,7 +304,31 @@ func cmdRun(args []string) {
 	maxViol := fs.Int("maxviol", 3, "")
 	outDir := fs.String("outdir", "", "directory for hash-set files")
 	cold := fs.Bool("cold", false, "short-lived process: bias the first runs towards contention")
+	knownPath := fs.String("known", "", "known_findings.json: listed violations are reported once and do not stop the search")
 	fs.Parse(args)
+	type knownT struct {
+		Property, Class, Match string
+	}
+	var known []knownT
+	if *knownPath != "" {
+		if b, err := os.ReadFile(*knownPath); err == nil {
+			var kf struct {
+				Known []knownT `json:"known"`
+			}
+			if json.Unmarshal(b, &kf) == nil {
+				known = kf.Known
+			}
+		}
+	}
+	knownSeen := map[string]bool{}
+	isKnown := func(v Violation) (string, bool) {
+		for _, k := range known {
+			if k.Property == v.Prop && k.Class == v.Class && k.Match != "" && strings.Contains(v.Detail, k.Match) {
+				return k.Match, true
+			}
+		}
+		return "", false
+	}
 	if _, ok := propWeights[*prop]; !ok {
 		fatal("unknown property %q", *prop)
 	}
@@ -395,6 +420,22 @@ func cmdRun(args []string) {
 			if len(refQueue) >= 192 || last {
 				flushRef()
 			}
+		}
+		// known findings: reported once each, they do not stop the search
+		if len(known) > 0 {
+			kept := viol[:0]
+			for _, v := range viol {
+				if m, ok := isKnown(v); ok {
+					if !knownSeen[m] {
+						knownSeen[m] = true
+						emit(w, violationMsg{Type: "violation", Worker: *wk, Run: int(i), Seed: s, BaseSeed: *seed, Cold: *cold, V: v, File: planFile{Prop: *prop, Class: v.Class, Plans: []*Plan{p}}})
+					}
+					st.KnownHits++
+					continue
+				}
+				kept = append(kept, v)
+			}
+			viol = kept
 		}
 		if len(viol) > 0 {
 			st.Violations++
